@@ -7,7 +7,7 @@ from . import kani as K
 from . import emit_l2 as E
 from . import driver as D
 
-REPO = "/repo"
+REPO = K.REPO
 
 
 class RawModule:
